@@ -46,6 +46,7 @@ type Cell struct {
 	Big   *sym.Term  // value of a math/big.Int living in this cell (nil = 0)
 	Tag   string     // debug / model tags (opaque handles etc.)
 	Ext   interface{} // payload for modelled library objects
+	Frozen bool       // shared across paths (package-init state): writes are refused
 }
 
 type StructVal struct {
@@ -71,6 +72,7 @@ type mapEntry struct {
 }
 
 type MapVal struct {
+	Frozen bool
 	E  []mapEntry
 	KT types.Type
 	VT types.Type
@@ -107,11 +109,25 @@ func isNilPtr(v Value) bool {
 	return ok && c == nil
 }
 
+type rangeEnt struct{ lo, hi *big.Int }
+
+var rangeCache [64]*rangeEnt
+
 func (in *Interp) intRange(t types.Type) (lo, hi *big.Int, ok bool) {
 	b, isb := t.Underlying().(*types.Basic)
 	if !isb {
 		return nil, nil, false
 	}
+	if int(b.Kind()) < len(rangeCache) {
+		if e := rangeCache[b.Kind()]; e != nil {
+			return e.lo, e.hi, true
+		}
+	}
+	defer func() {
+		if ok && int(b.Kind()) < len(rangeCache) {
+			rangeCache[b.Kind()] = &rangeEnt{lo, hi}
+		}
+	}()
 	bits, signed := 0, false
 	switch b.Kind() {
 	case types.Int, types.Int64:
@@ -233,41 +249,51 @@ func (in *Interp) newCell(t types.Type, v Value) *Cell {
 	return c
 }
 
+func isAggType(t types.Type) bool {
+	switch t.Underlying().(type) {
+	case *types.Struct, *types.Array:
+		return true
+	}
+	return false
+}
+
+// Aggregate cells are either COMPACT (Elems == nil, V holds the immutable
+// *StructVal / *ArrayVal, nil = zero value) or EXPANDED (one sub-cell per
+// field/element, created when somebody takes an element address).
 func (in *Interp) storeInto(c *Cell, t types.Type, v Value) {
-	switch u := t.Underlying().(type) {
-	case *types.Struct:
-		sv, ok := v.(*StructVal)
-		if !ok {
-			panic(fmt.Sprintf("store: struct expected for %s, got %T", t, v))
-		}
+	if c.Frozen {
+		in.fail("unsupported", "write to package-init state shared across paths (run with nocache)")
+	}
+	if isAggType(t) {
 		c.Agg = true
-		if c.Elems == nil {
-			c.Elems = make([]*Cell, u.NumFields())
-			for i := range c.Elems {
-				c.Elems[i] = &Cell{T: u.Field(i).Type()}
+		if sv, ok := v.(*StructVal); ok {
+			if bc, ok := sv.ext.(*bigCarrier); ok {
+				c.Big = bc.v
+			} else if c.Big != nil {
+				c.Big = nil
 			}
 		}
-		for i, e := range c.Elems {
-			in.storeInto(e, u.Field(i).Type(), sv.F[i])
-		}
-		if bc, ok := sv.ext.(*bigCarrier); ok {
-			c.Big = bc.v
-		}
-		return
-	case *types.Array:
-		av, ok := v.(*ArrayVal)
-		if !ok {
-			panic(fmt.Sprintf("store: array expected for %s, got %T", t, v))
-		}
-		c.Agg = true
 		if c.Elems == nil {
-			c.Elems = make([]*Cell, int(u.Len()))
-			for i := range c.Elems {
-				c.Elems[i] = &Cell{T: u.Elem()}
-			}
+			c.V = v
+			return
 		}
-		for i, e := range c.Elems {
-			in.storeInto(e, u.Elem(), av.E[i])
+		switch u := t.Underlying().(type) {
+		case *types.Struct:
+			sv, ok := v.(*StructVal)
+			if !ok {
+				panic(fmt.Sprintf("store: struct expected for %s, got %T", t, v))
+			}
+			for i, e := range c.Elems {
+				in.storeInto(e, u.Field(i).Type(), sv.F[i])
+			}
+		case *types.Array:
+			av, ok := v.(*ArrayVal)
+			if !ok {
+				panic(fmt.Sprintf("store: array expected for %s, got %T", t, v))
+			}
+			for i, e := range c.Elems {
+				in.storeInto(e, u.Elem(), av.E[i])
+			}
 		}
 		return
 	}
@@ -276,13 +302,90 @@ func (in *Interp) storeInto(c *Cell, t types.Type, v Value) {
 
 type bigCarrier struct{ v *sym.Term }
 
-// load reads a cell into value form (deep copy for aggregates).
+// ensureAgg expands a compact aggregate cell into sub-cells.
+func (in *Interp) ensureAgg(c *Cell) {
+	if c.Elems != nil {
+		return
+	}
+	frozen := c.Frozen
+	defer func() {
+		if frozen {
+			for _, e := range c.Elems {
+				e.Frozen = true
+			}
+		}
+	}()
+	c.Frozen = false
+	defer func() { c.Frozen = frozen }()
+	switch u := c.T.Underlying().(type) {
+	case *types.Struct:
+		n := u.NumFields()
+		if n == 0 {
+			c.Agg = true
+			c.Elems = []*Cell{}
+			return
+		}
+		slab := make([]Cell, n)
+		elems := make([]*Cell, n)
+		sv, _ := c.V.(*StructVal)
+		for i := range elems {
+			ft := u.Field(i).Type()
+			slab[i].T = ft
+			elems[i] = &slab[i]
+			if sv != nil {
+				in.storeInto(elems[i], ft, sv.F[i])
+			} else if isAggType(ft) {
+				slab[i].Agg = true
+			}
+		}
+		c.Agg = true
+		c.Elems = elems
+		c.V = nil
+	case *types.Array:
+		n := int(u.Len())
+		slab := make([]Cell, n)
+		elems := make([]*Cell, n)
+		av, _ := c.V.(*ArrayVal)
+		et := u.Elem()
+		agg := isAggType(et)
+		for i := range elems {
+			slab[i].T = et
+			elems[i] = &slab[i]
+			if av != nil {
+				in.storeInto(elems[i], et, av.E[i])
+			} else if agg {
+				slab[i].Agg = true
+			}
+		}
+		c.Agg = true
+		c.Elems = elems
+		c.V = nil
+	default:
+		panic(unsupported("ensureAgg on non-aggregate " + c.T.String()))
+	}
+}
+
+// load reads a cell into value form.
 func (in *Interp) load(c *Cell) Value {
 	if c == nil {
 		panic(goPanic{msg: "runtime error: invalid memory address or nil pointer dereference"})
 	}
-	if c.Agg {
-		switch u := c.T.Underlying().(type) {
+	if c.Agg || (c.V == nil && c.T != nil && isAggType(c.T)) {
+		if c.Elems == nil {
+			if c.V == nil {
+				c.V = in.zero(c.T)
+			}
+			if c.Big != nil {
+				if sv, ok := c.V.(*StructVal); ok {
+					if bc, ok := sv.ext.(*bigCarrier); !ok || bc.v != c.Big {
+						nsv := &StructVal{F: sv.F, ext: &bigCarrier{c.Big}}
+						return nsv
+					}
+				}
+			}
+			return c.V
+		}
+		switch c.T.Underlying().(type) {
 		case *types.Struct:
 			s := &StructVal{F: make([]Value, len(c.Elems))}
 			for i, e := range c.Elems {
@@ -293,7 +396,6 @@ func (in *Interp) load(c *Cell) Value {
 			}
 			return s
 		case *types.Array:
-			_ = u
 			a := &ArrayVal{E: make([]Value, len(c.Elems))}
 			for i, e := range c.Elems {
 				a.E[i] = in.load(e)
@@ -302,11 +404,37 @@ func (in *Interp) load(c *Cell) Value {
 		}
 	}
 	if c.V == nil {
-		// never stored: zero
 		c.V = in.zero(c.T)
 	}
 	return c.V
 }
+
+// alen / aget: length and element read of an array cell without expanding it.
+func (in *Interp) alen(c *Cell) int {
+	if c.Elems != nil {
+		return len(c.Elems)
+	}
+	return int(c.T.Underlying().(*types.Array).Len())
+}
+
+func (in *Interp) aget(c *Cell, i int) Value {
+	if c.Elems != nil {
+		return in.load(c.Elems[i])
+	}
+	if c.V == nil {
+		return in.zero(c.T.Underlying().(*types.Array).Elem())
+	}
+	return c.V.(*ArrayVal).E[i]
+}
+
+// acell returns the address of element i (expands the array).
+func (in *Interp) acell(c *Cell, i int) *Cell {
+	in.ensureAgg(c)
+	return c.Elems[i]
+}
+
+func (in *Interp) sget(s SliceVal, i int) Value  { return in.aget(s.Arr, s.Off+i) }
+func (in *Interp) scell(s SliceVal, i int) *Cell { return in.acell(s.Arr, s.Off+i) }
 
 // valuesEqual builds the Go == comparison of two values of (static) type t.
 func (in *Interp) valuesEqual(a, b Value, t types.Type) *sym.Term {
